@@ -1777,6 +1777,11 @@ func (c *Client) roundTrip(r *Request) (resp *Response, err error) {
 			return &callbackReader{
 				ReadCloser: rc,
 				callback: func(read int64) {
+					if resp.Response == nil {
+						// still inside the http client: this is the body of a
+						// redirect response being discarded, not the download
+						return
+					}
 					r.downloadCallback(DownloadInfo{
 						Response:       resp,
 						DownloadedSize: read,
